@@ -126,8 +126,18 @@ def _test_alts(test, frame, want, s):
                 out += [a + b for a in prefix]
             prefix = [a + b for a in prefix for b in _test_alts(v, frame, not want, s)]
         return out
-    if isinstance(test, ast.UnaryOp) and isinstance(test.op, ast.Not) and isinstance(test.operand, ast.BoolOp):
+    if isinstance(test, ast.UnaryOp) and isinstance(test.op, ast.Not) and isinstance(
+            test.operand, (ast.BoolOp, ast.IfExp)):
         return _test_alts(test.operand, frame, not want, s)
+    if isinstance(test, ast.IfExp):
+        out = []
+        for c in _test_alts(test.test, frame, True, s):
+            out += [c + b for b in _test_alts(test.body, frame, want, s)]
+        for c in _test_alts(test.test, frame, False, s):
+            out += [c + b for b in _test_alts(test.orelse, frame, want, s)]
+        return out
+    if isinstance(test, ast.Constant):
+        return [()] if bool(test.value) == want else []
     return [(Ev('test', test, frame, want, s),)]
 
 
@@ -219,12 +229,175 @@ def _stmt(s, frame, budget):
 _EXIT = {'R': 'return', 'X': 'raise', 'C': 'cycle', 'N': 'fall'}
 
 
+_EMPTY_CTORS = {'list', 'dict', 'set', 'tuple'}
+_MUT = {'append', 'extend', 'insert', 'add', 'update', 'setdefault', 'appendleft', 'push'}
+
+
+_READ_ONLY = {'len', 'sorted', 'list', 'tuple', 'set', 'frozenset', 'sum', 'min', 'max', 'any', 'all', 'str',
+              'repr', 'bool', 'enumerate', 'zip', 'iter', 'reversed', 'print', 'isinstance', 'id', 'type', 'dict',
+              'int', 'float', 'abs', 'round'}
+
+
+def _harmless_call(c):
+    """calls that cannot change a container passed to them"""
+    f = c.func
+    if isinstance(f, ast.Name):
+        return f.id in _READ_ONLY
+    if isinstance(f, ast.Attribute) and isinstance(f.value, ast.Name) and f.value.id.lower() in ('logger', 'log', 'logging'):
+        return True
+    return False
+
+
+def _lit_state(v):
+    """('const', value) / ('empty',) for a literal right-hand side, else None"""
+    if isinstance(v, ast.Constant) and isinstance(v.value, (bool, int, str, type(None))):
+        return ('const', v.value)
+    if isinstance(v, (ast.List, ast.Tuple, ast.Set)) and not v.elts:
+        return ('empty',)
+    if isinstance(v, ast.Dict) and not v.keys:
+        return ('empty',)
+    if isinstance(v, ast.Call) and isinstance(v.func, ast.Name) and v.func.id in _EMPTY_CTORS and not v.args \
+            and not v.keywords:
+        return ('empty',)
+    return None
+
+
+def _truth(test, env, fid):
+    """definite truth value of a test over locals with a known literal value, else None"""
+    if isinstance(test, ast.UnaryOp) and isinstance(test.op, ast.Not):
+        v = _truth(test.operand, env, fid)
+        return None if v is None else not v
+    if isinstance(test, ast.Name):
+        st = env.get((fid, test.id))
+        if st is None:
+            return None
+        return False if st[0] == 'empty' else bool(st[1])
+    if isinstance(test, ast.Call) and isinstance(test.func, ast.Name) and test.func.id in ('len', 'bool') \
+            and len(test.args) == 1:
+        return _truth(test.args[0], env, fid)
+    if isinstance(test, ast.Compare) and len(test.ops) == 1:
+        l, r, op = test.left, test.comparators[0], test.ops[0]
+        for a, b, flip in ((l, r, False), (r, l, True)):
+            if isinstance(a, ast.Call) and isinstance(a.func, ast.Name) and a.func.id == 'len' and len(a.args) == 1 \
+                    and isinstance(a.args[0], ast.Name) and isinstance(b, ast.Constant) and isinstance(b.value, int):
+                st = env.get((fid, a.args[0].id))
+                if st is not None and st[0] == 'empty':
+                    n = b.value
+                    o = type(op)
+                    if flip:
+                        o = {ast.Lt: ast.Gt, ast.Gt: ast.Lt, ast.LtE: ast.GtE, ast.GtE: ast.LtE}.get(o, o)
+                    return {ast.Eq: 0 == n, ast.NotEq: 0 != n, ast.Lt: 0 < n, ast.LtE: 0 <= n,
+                            ast.Gt: 0 > n, ast.GtE: 0 >= n}.get(o)
+            if isinstance(a, ast.Name) and isinstance(b, ast.Constant):
+                st = env.get((fid, a.id))
+                if st is not None and st[0] == 'const' and isinstance(op, (ast.Eq, ast.NotEq, ast.Is, ast.IsNot)):
+                    same = st[1] == b.value and type(st[1]) is type(b.value)
+                    return same if isinstance(op, (ast.Eq, ast.Is)) else not same
+    return None
+
+
+def locally_feasible(events):
+    """False when a test contradicts the literal value (constant / fresh empty container) a
+    local holds on this path.  Locals assigned inside a loop are forgotten at the loop head
+    (a path stands for any iteration)."""
+    env = {}
+    for e in events:
+        fid = id(e.frame)
+        n = e.node
+        if e.kind in ('for', 'for0', 'loop') and n is not None:
+            for x in ast.walk(n):
+                if isinstance(x, ast.Name) and isinstance(x.ctx, (ast.Store, ast.Del)):
+                    env.pop((fid, x.id), None)
+                elif isinstance(x, ast.Attribute) and isinstance(x.value, ast.Name) and x.attr in _MUT:
+                    env.pop((fid, x.value.id), None)
+                elif isinstance(x, ast.Call) and not _harmless_call(x):
+                    for a in list(x.args) + [k.value for k in x.keywords]:
+                        if isinstance(a, ast.Name):
+                            st = env.get((fid, a.id))
+                            if st is not None and st[0] == 'empty':
+                                env.pop((fid, a.id), None)
+            continue
+        if e.kind == 'test':
+            v = _truth(n, env, fid)
+            if v is not None and v != bool(e.pol):
+                return False
+        if e.kind not in ('stmt', 'test') or n is None:
+            continue
+        roots = [it.context_expr for it in n.items] if e.extra == 'with' else [n]
+        for root in roots:
+            for x in ast.walk(root):
+                if isinstance(x, ast.Attribute) and isinstance(x.value, ast.Name) and x.attr in _MUT:
+                    env.pop((fid, x.value.id), None)
+                elif isinstance(x, ast.Call) and not _harmless_call(x):
+                    for a in list(x.args) + [k.value for k in x.keywords]:
+                        if isinstance(a, ast.Name):
+                            st = env.get((fid, a.id))
+                            if st is not None and st[0] == 'empty':
+                                env.pop((fid, a.id), None)
+                elif isinstance(x, (ast.Subscript, ast.Attribute)) and isinstance(x.ctx, ast.Store) and isinstance(
+                        x.value, ast.Name):
+                    env.pop((fid, x.value.id), None)
+        if e.kind == 'stmt' and e.extra != 'with':
+            if isinstance(n, ast.Assign):
+                st = _lit_state(n.value) if len(n.targets) == 1 and isinstance(n.targets[0], ast.Name) else None
+                for t in n.targets:
+                    for x in ast.walk(t):
+                        if isinstance(x, ast.Name) and isinstance(x.ctx, ast.Store):
+                            env.pop((fid, x.id), None)
+                # the value may alias a tracked empty container: xs = ys
+                def escaping(v):
+                    if isinstance(v, ast.Name):
+                        yield v
+                    elif isinstance(v, (ast.Tuple, ast.List, ast.Set)):
+                        for y in v.elts:
+                            yield from escaping(y)
+                    elif isinstance(v, ast.Dict):
+                        for y in v.values:
+                            yield from escaping(y)
+                    elif isinstance(v, ast.IfExp):
+                        yield from escaping(v.body)
+                        yield from escaping(v.orelse)
+                    elif isinstance(v, ast.BoolOp):
+                        for y in v.values:
+                            yield from escaping(y)
+                    elif isinstance(v, ast.Starred):
+                        yield from escaping(v.value)
+                for x in escaping(n.value):
+                    if env.get((fid, x.id), ('',))[0] == 'empty':
+                        env.pop((fid, x.id), None)
+                if st is not None:
+                    env[(fid, n.targets[0].id)] = st
+            elif isinstance(n, (ast.AugAssign, ast.AnnAssign)):
+                if isinstance(n.target, ast.Name):
+                    env.pop((fid, n.target.id), None)
+            elif isinstance(n, ast.Delete):
+                for t in n.targets:
+                    if isinstance(t, ast.Name):
+                        env.pop((fid, t.id), None)
+            elif isinstance(n, (ast.Return, ast.Expr)):
+                v = n.value
+                for x in ast.walk(v) if v is not None else []:
+                    if isinstance(x, (ast.Yield, ast.YieldFrom)):
+                        # other processes run: nothing local changes, keep env
+                        break
+        if e.kind == 'stmt' and e.extra == 'with':
+            for it in n.items:
+                if it.optional_vars is not None:
+                    for x in ast.walk(it.optional_vars):
+                        if isinstance(x, ast.Name):
+                            env.pop((fid, x.id), None)
+    return True
+
+
 def function_paths(func, frame=None):
-    """All acyclic intraprocedural paths of a function."""
+    """All acyclic intraprocedural paths of a function (without those a literal-valued local
+    makes infeasible)."""
     frame = frame or Frame(func)
     budget = [0]
     res = []
     for ev, o in _seq(func.node.body, frame, budget):
+        if not locally_feasible(ev):
+            continue
         ev = list(ev)
         if o == 'N':
             ev.append(Ev('exit', None, frame, extra='fall'))
